@@ -102,6 +102,15 @@ def const_value(facts, name, crate="lib"):
     c = facts.const(name, crate)
     if c is None:
         return None
+    if "eval" in c:
+        # integer constant as evaluated by the compiler (however it is spelled: literal, arithmetic, const fn)
+        v = int(c["eval"])
+        ty = c.get("ty", "")
+        if ty.startswith("i"):
+            bits = {"i8": 8, "i16": 16, "i32": 32, "i64": 64, "i128": 128, "isize": 64}.get(ty, 64)
+            if v >= 1 << (bits - 1):
+                v -= 1 << bits
+        return v
     return fold(c["hir"]["value"], facts, crate)
 
 
